@@ -1,4 +1,5 @@
-import Pywbem.Model.Assoc
+import Pywbem.Model.AssocWrite
+import Pywbem.Model.AssocSet
 open Lean Pywbem.Proto Pywbem.Model.Assoc
 
 /-! C13 driver.  Input line:
@@ -7,10 +8,14 @@ open Lean Pywbem.Proto Pywbem.Model.Assoc
                       "insts":[{"cls":s,"path":P,"props":[{"name":s,"ref":bool,"v":P|null}]}]}],
    "reqs":[{"op":"RN"|"R"|"AN"|"A","lvl":"i"|"c","ns":s,"src":P|s,
             "ac":s|null,"rc":s|null,"role":s|null,"rrole":s|null}
-          | {"op":"create","ns":s,"inst":{cls,path,props}} ]}
+          | {"op":"create","ns":s,"inst":{cls,path,props}}
+          | {"op":"modify","ns":s,"path":P,"chg":[{"name":s,"ref":bool,"v":P|null}]}
+          | {"op":"delete","ns":s,"path":P} ]}
   with P = {"c":s,"n":s|null,"h":s|null,"k":nat}; strings as JSON strings or code point arrays.
-  Output: {"outs":[{"ok":[P…]} | {"ok":[[s,s]…]} | {"ok":[s…]} | {"exc":…}], "repo":[{"name":s,"paths":[P…]}]}
-  ("create" requests change the repository for the following requests; "repo" is the final state) -/
+  Output: {"outs":[{"ok":[P…]} | {"ok":[[s,s]…]} | {"ok":[s…]} | {"exc":…}],
+           "repo":[{"name":s,"paths":[P…],"insts":[{"path":P,"cls":s,"refs":[[s,P|null]…]}]}]}
+  (create / modify / delete requests change the repository for the following requests; "repo" is the final
+   state; instance-level traversal results are duplicate-free: `dedupPaths`) -/
 
 def optChars (j : Json) (k : String) : Option (List Char) :=
   match getField j k with
@@ -77,6 +82,14 @@ def step (sv : Server) (j : Json) : Server × Json :=
     match createAssoc sv ns (parseInst (getField j "inst")) with
     | .error e => (sv, excJson e)
     | .ok sv' => (sv', Json.mkObj [("ok", Json.null)])
+  | some "modify" =>
+    match modifyAssoc sv ns ((parsePath (getField j "path")).getD default) ((getArr j "chg").map parseIProp) with
+    | .error e => (sv, excJson e)
+    | .ok sv' => (sv', Json.mkObj [("ok", Json.null)])
+  | some "delete" =>
+    match deleteAssoc sv ns ((parsePath (getField j "path")).getD default) with
+    | .error e => (sv, excJson e)
+    | .ok sv' => (sv', Json.mkObj [("ok", Json.null)])
   | some op =>
     let f : AFilter := { assocClass := optChars j "ac", resultClass := optChars j "rc",
                          role := optChars j "role", resultRole := optChars j "rrole" }
@@ -91,10 +104,10 @@ def step (sv : Server) (j : Json) : Server × Json :=
     else
       let x := (parsePath (getField j "src")).getD default
       (sv, match op with
-        | "RN" => outPaths (referenceNamesI sv ns x f.resultClass f.role)
+        | "RN" => outPaths (referenceNamesSetI sv ns x f.resultClass f.role)
         | "R" => outInsts (referencesI sv ns x f.resultClass f.role)
-        | "AN" => outPaths (associatorNamesI sv ns x f)
-        | "A" => outInsts (associatorsI sv ns x f)
+        | "AN" => outPaths (associatorNamesSetI sv ns x f)
+        | "A" => outInsts (associatorsSetI sv ns x f)
         | _ => Json.mkObj [("bad", "op")])
   | none => (sv, Json.mkObj [("bad", "op")])
 
@@ -104,6 +117,9 @@ def handle (j : Json) : Json :=
     (fun (acc : Server × List Json) r => let (s, o) := step acc.1 r; (s, o :: acc.2)) (sv0, [])
   Json.mkObj [("outs", Json.arr outs.reverse.toArray),
               ("repo", Json.arr (sv.repo.map (fun S => Json.mkObj [("name", str S.name),
-                ("paths", Json.arr (S.insts.map (fun i => pathToJson i.path)).toArray)])).toArray)]
+                ("paths", Json.arr (S.insts.map (fun i => pathToJson i.path)).toArray),
+                ("insts", Json.arr (S.insts.map (fun i => Json.mkObj [("path", pathToJson i.path), ("cls", str i.cls),
+                  ("refs", Json.arr ((i.props.filter (·.isRef)).map (fun p =>
+                    Json.arr #[str p.name, optToJson pathToJson p.value])).toArray)])).toArray)])).toArray)]
 
 def main : IO Unit := runDriver handle
